@@ -59,17 +59,20 @@ type Request struct {
 
 // Reply tells the connection loop what to send back.
 type Reply struct {
-	Body   []byte        // response body, placed after the correlation id
-	None   bool          // send nothing (produce with acks=0)
-	Close  bool          // close the connection instead of answering
-	CutAt  int           // >= 0: send only the first CutAt bytes of the frame, then close
-	Delay  time.Duration // wait before sending
-	Raw    []byte        // send these bytes verbatim instead of a frame
-	Chunks []int         // deliver the frame in pieces of these sizes with small pauses
-	CorrID *int32        // override the correlation id
-	Gate   chan struct{} // wait for this channel before sending
-	Lazy   func() Reply  // evaluated after Gate opened; replaces this reply
-	OnSend func()        // called right before the bytes are written
+	Body     []byte        // response body, placed after the correlation id
+	None     bool          // send nothing (produce with acks=0)
+	Close    bool          // close the connection instead of answering
+	CutAt    int           // >= 0: send only the first CutAt bytes of the frame, then close
+	Delay    time.Duration // wait before sending
+	Raw      []byte        // send these bytes verbatim instead of a frame
+	Chunks   []int         // deliver the frame in pieces of these sizes with small pauses
+	StallAt  int           // > 0: send this many bytes of the frame (at most all but one), pause for StallFor, send the rest
+	StallFor time.Duration
+	OnRest   func()        // called right before the rest of a stalled frame is written
+	CorrID   *int32        // override the correlation id
+	Gate     chan struct{} // wait for this channel before sending
+	Lazy     func() Reply  // evaluated after Gate opened; replaces this reply
+	OnSend   func()        // called right before the bytes are written
 }
 
 func Body(b []byte) Reply { return Reply{Body: b, CutAt: -1} }
@@ -306,6 +309,19 @@ func (b *Broker) send(conn *fakenet.Conn, req *Request, rep *Reply) bool {
 	if rep.CutAt >= 0 && rep.CutAt < len(frame) {
 		conn.Write(frame[:rep.CutAt])
 		return false
+	}
+	if rep.StallAt > 0 && len(frame) > 1 {
+		n := rep.StallAt
+		if n > len(frame)-1 {
+			n = len(frame) - 1
+		}
+		conn.Write(frame[:n])
+		time.Sleep(rep.StallFor)
+		if rep.OnRest != nil {
+			rep.OnRest()
+		}
+		conn.Write(frame[n:])
+		return true
 	}
 	if len(rep.Chunks) > 0 {
 		p := frame
